@@ -111,7 +111,7 @@ def scn(params):
             tf = k.now + 2 * US
             while tf < t.t0 + D:
                 who = fr_.choice(["srv"] + [c.name for c in t.clients])
-                k.at(tf, k.fail_tun_writes, who, fr_.choice([5, 105, 11]), fr_.choice([1, 1, 1, 2]))
+                k.at(tf, k.fail_tun_writes, who, fr_.choice([5, 105, 11, ("short", 1), ("short", 20), ("short", 512)]), fr_.choice([1, 1, 1, 2]))
                 tf += fr_.choice([500000, 1500000, 4000000])
         return t.t0 + D + 25 * US
 
@@ -173,7 +173,7 @@ def run(ctx):
     res.rule = ("scenario = real iodine client(s) + real iodined on the simulated OS through a seeded fault relay "
                 "(loss/burst/dup/delay/reorder/id-rewrite/impatient re-send, raw-mode link faults) for 60 virtual s "
                 "with frames of 1..3000 bytes offered on both tun devices (and client-to-client), in a quarter of the scenarios with "
-                "write() on a tun device failing now and then (EIO/ENOBUFS/EAGAIN); oracle: every "
+                "write() on a tun device failing now and then (EIO/ENOBUFS/EAGAIN, short counts); oracle: every "
                 "tun_write is byte-identical to a frame read earlier from a tun device (of the peer, another client, or - hairpin via the server - its own). non-trivial = scenario in "
                 "which >=1 multi-fragment frame was delivered in each direction while >=1 fault decision was taken "
                 "(or a raw-mode run with >=4 deliveries); distinct over (qtype, upstream codec, downstream codec, "
